@@ -346,9 +346,9 @@ static Plan dkg_generate(uint64_t seed, const Tier &tier)
 	int t = tmax ? (int)g.range(g.chance(3, 4) ? tmax : 0, tmax) : 0;
 	// the New-DKG and the dealer-based VSS tolerate t < n/2 (the broadcast below them keeps (n-1)/3, which
 	// also bounds the number of faulty parties here): thresholds up to 3 with seven parties
-	if ((proto == PR_GJKR || proto == PR_VSS) && g.chance(1, 4))
+	if ((proto == PR_GJKR || proto == PR_VSS || proto == PR_FLIP) && g.chance(1, 4))
 	{
-		if (proto == PR_GJKR && g.chance(1, 2)) n = 7;
+		if ((proto == PR_GJKR || proto == PR_FLIP) && g.chance(1, 2)) n = 7;
 		if (n >= 5) { t = (n - 1) / 2; p.cfg["bigt"] = 1; }
 	}
 	p.cfg["n"] = n; p.cfg["t"] = t;
@@ -386,12 +386,19 @@ static Plan dkg_generate(uint64_t seed, const Tier &tier)
 	}
 	if (faults && t > 0)
 	{
-		int f = (int)g.range(1, std::min(t, tmax));
+		// up to t deviating parties; at most tmax = (n-1)/3 of them deviate below the broadcast (silence, crash,
+		// per-recipient links), the others deviate only above it (library switch, one own broadcast replaced for
+		// every recipient alike) and are honest as far as the reliable broadcast is concerned
+		bool bigt = p.cfg.count("bigt") && p.cfg["bigt"];
+		int f = (int)g.range(1, bigt ? t : std::min(t, tmax));
+		bool allsoft = bigt && g.chance(1, 2);
 		std::set<int> used;
 		for (int k = 0; k < f; k++)
 		{
 			int z; do { z = (int)g.below(n); } while (used.count(z)); used.insert(z);
-			p.ops.push_back(Op("f_faulty", z, (int64_t)g.below(7), (int64_t)g.below(400), (int64_t)g.below(1 << 16)));
+			int64_t mode = (int64_t)g.below(7);
+			if (k >= tmax || allsoft) mode = (mode & 1) ? 6 : 0;
+			p.ops.push_back(Op("f_faulty", z, mode, (int64_t)g.below(400), (int64_t)g.below(1 << 16)));
 		}
 	}
 	return p;
@@ -409,14 +416,17 @@ static RunResult dkg_execute_inner(const Plan &plan, const std::vector<uint64_t>
 	W.proto = (int)(plan.get("proto", 0) % PR_NUM);
 	W.Tu = (time_t)plan.get("Tu", 1); W.Tb = (time_t)plan.get("Tb", 45);
 	W.out.resize(W.n); W.faulty.assign(W.n, 0); W.sendctr.assign(W.n, 0);
-	size_t nf = 0;
+	size_t nf = 0, nhard = 0;
 	std::vector<int64_t> crash_after(W.n, 0), bseed(W.n, 0);
 	for (size_t i = 0; i < plan.ops.size(); i++)
 		if (plan.ops[i].kind == "f_faulty")
 		{
 			size_t z = (size_t)plan.ops[i].arg(0) % W.n;
-			if (W.faulty[z] || nf >= W.trbc) continue;
-			W.faulty[z] = 1 + (int)(plan.ops[i].arg(1) % 7); nf++;
+			int fmode = (int)(plan.ops[i].arg(1) % 7); bool soft = (fmode == 0 || fmode == 6);
+			size_t fcap = plan.get("bigt", 0) ? W.t : W.trbc;
+			if (W.faulty[z] || nf >= fcap || (!soft && nhard >= W.trbc)) continue;
+			if (!soft) nhard++;
+			W.faulty[z] = 1 + fmode; nf++;
 			crash_after[z] = plan.ops[i].arg(2); bseed[z] = plan.ops[i].arg(3);
 			W.out[z].honest = false; W.out[z].fmode = W.faulty[z] - 1;
 			W.res.cnt[std::string("fault.faulty_party_mode") + std::to_string(W.faulty[z] - 1)]++;
